@@ -52,6 +52,7 @@ ASSUMPTIONS = [
 BUDGET = {"quick": 70, "thorough": 400}
 NCASES = {"quick": 16, "thorough": 32}
 BATCH = {"quick": 20, "thorough": 48}
+CASE_TIMEOUT = 1500.0  # one case = one batch of recipes x all histories (dozens of child processes)
 EVAL_COUNTER = "pairs_compared"
 FLOORS = {
     "quick": {
@@ -156,6 +157,8 @@ def run_child(recipes, confs, order, hashseed, timeout, pyc):
     # ufl is imported before vf because vf switches byte code writing off
     env.pop("PYTHONDONTWRITEBYTECODE", None)
     env["PYTHONPYCACHEPREFIX"] = pyc
+    for v in ("OPENBLAS_NUM_THREADS", "OMP_NUM_THREADS", "MKL_NUM_THREADS"):
+        env[v] = "1"
     job = json.dumps({"recipes": recipes, "confs": confs, "order": order, "canon": True})
     try:
         p = subprocess.run(
@@ -211,37 +214,60 @@ def _norm(x):
     return x
 
 
-def _first_diff_tag(a, b):
-    """Class name of the innermost expression node around the first difference of two trees."""
-    tags = []
-    x, y = a, b
-    while True:
-        ta, tb = _tag(x), _tag(y)
-        if ta is not None and tb is not None:
-            tags.append((ta, tb))
-        if isinstance(x, list) and isinstance(y, list) and len(x) == len(y):
-            k = next((k for k in range(len(x)) if x[k] != y[k]), None)
-            if k is None or (k == 0 and isinstance(x[0], str)):
-                break
-            x, y = x[k], y[k]
-            continue
-        break
-    for ta, tb in reversed(tags):
-        if ta not in _NOT_A_NODE and tb not in _NOT_A_NODE:
-            return _class_label(ta) if ta == tb else "|".join(sorted((_class_label(ta), _class_label(tb))))
-    return "?"
+def _erase_indices(x):
+    """Copy of a canon tree without index numbers (canon numbers indices by first occurrence, so one
+    swapped operand pair renumbers everything after it)."""
+    if isinstance(x, list):
+        t = _tag(x)
+        if t == "i":
+            return ["i"]
+        if t == "Zero" and len(x) == 4:
+            return ["Zero", x[1], len(x[2]), x[3]]
+        if t == "Conj" and _is_operator(x) and len(x[1]) == 1 and _tag(x[1][0]) == "Inner" and len(x[1][0][1]) == 2:
+            # inner(a, b) is stored as Conj(Inner(b, a)) when its operands sort the other way round
+            inner = x[1][0]
+            return ["Inner", [_erase_indices(inner[1][1]), _erase_indices(inner[1][0])], inner[2]]
+        return [_erase_indices(c) for c in x]
+    return x
 
 
-def _find_swap(a, b, depth=0):
+def _is_operator(x):
+    return isinstance(x, list) and len(x) == 3 and isinstance(x[0], str) and isinstance(x[1], list) and isinstance(x[2], list) and x[0] != "MultiIndex"
+
+
+def _decide(x, y):
+    """Class of the node at which ufl.sorting.cmp_expr would decide the order of x and y
+    (type first, then operands last-to-first, terminals by their data); None = no decision."""
+    tx, ty = _tag(x), _tag(y)
+    if tx is None or ty is None:
+        return None if x == y else "?"
+    if tx != ty:
+        return "|".join(sorted((_class_label(tx), _class_label(ty))))
+    if _is_operator(x) and _is_operator(y):
+        ox, oy = x[1], y[1]
+        for k in reversed(range(min(len(ox), len(oy)))):
+            if ox[k] != oy[k]:
+                r = _decide(ox[k], oy[k])
+                if r is not None:
+                    return r
+        if len(ox) != len(oy) or x[2] != y[2]:
+            return _class_label(tx)
+        return None
+    if x == y or tx == "Label":
+        return None
+    return _class_label(tx)
+
+
+def _find_swap(a, b):
     """Deepest place where the two trees hold the same children in a different order.
 
-    Returns ('operand-order'|'integral-order', class at which the two swapped children first differ) or
+    Returns ('operand-order'|'integral-order', class deciding the order of the swapped children) or
     ('structure', class around the first difference).
     """
     if a == b:
         return None
     if not (isinstance(a, list) and isinstance(b, list) and len(a) == len(b)) or _tag(a) != _tag(b):
-        return ("structure", _first_diff_tag(a, b))
+        return ("structure", _decide(a, b) or "?")
     na = [json.dumps(_norm(c), sort_keys=True) for c in a]
     nb = [json.dumps(_norm(c), sort_keys=True) for c in b]
     if sorted(na) == sorted(nb):
@@ -251,27 +277,30 @@ def _find_swap(a, b, depth=0):
             # prefer the same position, else the first unused child with the same normal form
             j = k if (not used[k] and nb[k] == na[k]) else next((j for j in range(len(b)) if not used[j] and nb[j] == na[k]), None)
             if j is None:
-                return ("structure", _first_diff_tag(a, b))
+                return ("structure", _decide(a, b) or "?")
             used[j] = True
             pairs.append((c, b[j]))
         for x, y in pairs:
             if x != y:
-                r = _find_swap(x, y, depth + 1)
+                r = _find_swap(x, y)
                 if r is not None:
                     return r
         k = next(k for k in range(len(a)) if a[k] != b[k])
         what = "integral-order" if _tag(a[k]) == "Integral" else "operand-order"
-        return (what, _first_diff_tag(a[k], b[k]))
+        return (what, _decide(a[k], b[k]) or "undecided")
     k = next(k for k in range(len(a)) if a[k] != b[k])
-    return _find_swap(a[k], b[k], depth + 1) or ("structure", _first_diff_tag(a, b))
+    return _find_swap(a[k], b[k]) or ("structure", _decide(a, b) or "?")
 
 
 def mechanism(ref, obs):
     ca, cb = ref.get("canon"), obs.get("canon")
     if isinstance(ca, list) and isinstance(cb, list):
         if ca != cb:
+            ea, eb = _erase_indices(ca), _erase_indices(cb)
+            if ea == eb:
+                return "structure/index-pattern"
             try:
-                what, cls = _find_swap(ca, cb)
+                what, cls = _find_swap(ea, eb)
             except RecursionError:
                 return "structure/?"
             return f"{what}/{cls}"
@@ -302,20 +331,27 @@ def case(ctx, i, rng):
     digs = [recipe_digest(r) for r in recipes]
     H = histories(tier)
     confs_all = []
+    plan = []
+    for hi, h in enumerate(H):
+        kind, boundary, hashseed, order = h
+        crng = random.Random(rng.getrandbits(64))
+        confs = [gen_conf(crng, kind, boundary, r["nown"]) for r in recipes]
+        idx = list(range(R))
+        if order == "reversed":
+            idx.reverse()
+        elif order == "shuffled":
+            crng.shuffle(idx)
+        confs_all.append(confs)
+        plan.append((hi, confs, idx, hashseed))
+    # reference first; the others in a per-case order, so that a run cut short by its time budget
+    # still sees every kind of history
+    rest = plan[1:]
+    rng.shuffle(rest)
     results = [None] * len(H)
     pyc = tempfile.mkdtemp(prefix="vf_c12_pyc_")
     try:
-        for hi, h in enumerate(H):
-            kind, boundary, hashseed, order = h
-            crng = random.Random(rng.getrandbits(64))
-            confs = [gen_conf(crng, kind, boundary, r["nown"]) for r in recipes]
-            idx = list(range(R))
-            if order == "reversed":
-                idx.reverse()
-            elif order == "shuffled":
-                crng.shuffle(idx)
-            confs_all.append(confs)
-            if hi > 0 and ctx.time_left() < 3:
+        for n, (hi, confs, idx, hashseed) in enumerate([plan[0]] + rest):
+            if n > 0 and ctx.time_left() < 3:
                 ctx.count("histories_not_run_time_budget")
                 continue
             results[hi] = run_child(recipes, confs, idx, hashseed, 60 + 5 * R, pyc)
